@@ -2,7 +2,7 @@
 import random
 from . import common
 KEYS = ["res", "md", "q"]
-RULE = ("all 256 TCR values (claims for CKS 0-3) x random TCNT/TCORA/TCORB/TCSR start values respecting the side condition x charge sequences "
+RULE = ("all 256 TCR values (CKS 4-7 select no internal clock: nothing counts) x random TCNT/TCORA/TCORB/TCSR start values respecting the side condition x charge sequences "
         "(1-255 each) around the divisor multiples, with interleaved CPU writes to TCR/TCNT/TCORx/TCSR and reads; the same totals are fed "
         "in several partitions; distinct = distinct (history, final registers, request queue)")
 TCR, TCSR, TCORA, TCORB, TCNT = 0xffff80, 0xffff82, 0xffff84, 0xffff86, 0xffff88
@@ -54,7 +54,7 @@ def generate(tier, seed, info):
     # interleaved histories
     for _ in range(4000 if tier == "quick" else 80000):
         ops = []
-        tcr = rnd.randrange(256) & 0xfb if rnd.random() < 0.9 else rnd.randrange(256)
+        tcr = rnd.randrange(256) & 0xfb if rnd.random() < 0.7 else rnd.randrange(256)
         tcnt, a, b = start_regs(rnd, tcr)
         ops += ["w8:%x:%x" % (TCORA, a), "w8:%x:%x" % (TCORB, b), "w8:%x:%x" % (TCNT, tcnt), "w8:%x:%x" % (TCR, tcr)]
         for _ in range(rnd.randrange(3, 40)):
@@ -67,11 +67,16 @@ def generate(tier, seed, info):
                 ops.append("w8:%x:%x" % (TCNT, rnd.randrange(256)))
             elif k < 0.93:
                 keep = tcr & 0x18
-                ops.append("w8:%x:%x" % (TCR, (rnd.randrange(256) & 0xe3 & 0xfb) | keep))
+                ops.append("w8:%x:%x" % (TCR, (rnd.randrange(256) & (0xe3 if rnd.random() < 0.7 else 0xe7)) | keep))
             else:
                 ops.append(rnd.choice(["r8:%x" % TCNT, "r8:%x" % TCSR]))
         n += 1
         lines.append("id=%x kind=timer ops=%s" % (n, ",".join(ops)))
+    # the timer as programs see it: through Cpu::run, with the handlers of its three vectors and TCNT / TCSR read back
+    from . import c13
+    tl = c13.timer_irq_programs(rnd, 300 if tier == "quick" else 5000, seed % 200 + 3, n)
+    lines += tl
+    info["timer_programs_through_run"] = len(tl)
     info["cases"] = len(lines)
     info["exhaustive_part"] = "all 256 TCR values"
     return common.shard(lines)
